@@ -115,21 +115,31 @@ impl<T> AtomicWeak<T> {
         failure: Ordering,
         guard: &'g Guard,
     ) -> Result<Weak<T>, CompareExchangeError<Weak<T>, WeakSnapshot<'g, T>>> {
-        #[cfg(feature = "circ_verif")]
-        crate::verif::yp2(crate::verif::site::AW_CAS, &self.link as *const _ as usize, expected.ptr.verif_word(), desired.ptr.verif_word());
-        match self
-            .link
-            .compare_exchange(expected.ptr, desired.ptr, success, failure)
-        {
-            Ok(_) => {
-                // Skip decrementing a weak count of the inserted pointer.
-                forget(desired);
-                let weak = Weak::from_raw(expected.ptr);
-                Ok(weak)
-            }
-            Err(current) => {
-                let current = WeakSnapshot::from_raw(current, guard);
-                Err(CompareExchangeError { desired, current })
+        // `expected` may differ from the stored pointer only in the internal epoch bits (e.g. it
+        // was downgraded from a `Snapshot` loaded at another epoch). Those bits are invisible to
+        // users, so retry with the stored bits, as `AtomicRc::compare_exchange` does.
+        let mut expected_raw = expected.ptr;
+        loop {
+            #[cfg(feature = "circ_verif")]
+            crate::verif::yp2(crate::verif::site::AW_CAS, &self.link as *const _ as usize, expected_raw.verif_word(), desired.ptr.verif_word());
+            match self
+                .link
+                .compare_exchange(expected_raw, desired.ptr, success, failure)
+            {
+                Ok(_) => {
+                    // Skip decrementing a weak count of the inserted pointer.
+                    forget(desired);
+                    let weak = Weak::from_raw(expected_raw);
+                    return Ok(weak);
+                }
+                Err(current_raw) => {
+                    if current_raw.ptr_eq(expected_raw) {
+                        expected_raw = current_raw;
+                    } else {
+                        let current = WeakSnapshot::from_raw(current_raw, guard);
+                        return Err(CompareExchangeError { desired, current });
+                    }
+                }
             }
         }
     }
@@ -162,27 +172,39 @@ impl<T> AtomicWeak<T> {
         failure: Ordering,
         guard: &'g Guard,
     ) -> Result<Weak<T>, CompareExchangeError<Weak<T>, WeakSnapshot<'g, T>>> {
-        #[cfg(feature = "circ_verif")]
-        crate::verif::yp2(crate::verif::site::AW_CAS_WEAK, &self.link as *const _ as usize, expected.ptr.verif_word(), desired.ptr.verif_word());
-        #[cfg(feature = "circ_verif")]
-        if crate::verif::buggify(crate::verif::fault::AW_CAS_WEAK) {
-            // Spurious failure of the weak CAS: return what the `Err` arm below returns.
-            let current = WeakSnapshot::from_raw(self.link.load(failure), guard);
-            return Err(CompareExchangeError { desired, current });
-        }
-        match self
-            .link
-            .compare_exchange_weak(expected.ptr, desired.ptr, success, failure)
-        {
-            Ok(_) => {
-                // Skip decrementing a weak count of the inserted pointer.
-                forget(desired);
-                let weak = Weak::from_raw(expected.ptr);
-                Ok(weak)
+        // See `compare_exchange` for why this is a loop.
+        let mut expected_raw = expected.ptr;
+        loop {
+            #[cfg(feature = "circ_verif")]
+            crate::verif::yp2(crate::verif::site::AW_CAS_WEAK, &self.link as *const _ as usize, expected_raw.verif_word(), desired.ptr.verif_word());
+            #[cfg(feature = "circ_verif")]
+            if crate::verif::buggify(crate::verif::fault::AW_CAS_WEAK) {
+                // Spurious failure of the weak CAS: behave exactly as the `Err` arm below does
+                // when the value read equals `expected_raw`.
+                let current_raw = self.link.load(failure);
+                if current_raw.ptr_eq(expected_raw) {
+                    expected_raw = current_raw;
+                    continue;
+                }
             }
-            Err(current) => {
-                let current = WeakSnapshot::from_raw(current, guard);
-                Err(CompareExchangeError { desired, current })
+            match self
+                .link
+                .compare_exchange_weak(expected_raw, desired.ptr, success, failure)
+            {
+                Ok(_) => {
+                    // Skip decrementing a weak count of the inserted pointer.
+                    forget(desired);
+                    let weak = Weak::from_raw(expected_raw);
+                    return Ok(weak);
+                }
+                Err(current_raw) => {
+                    if current_raw.ptr_eq(expected_raw) {
+                        expected_raw = current_raw;
+                    } else {
+                        let current = WeakSnapshot::from_raw(current_raw, guard);
+                        return Err(CompareExchangeError { desired, current });
+                    }
+                }
             }
         }
     }
@@ -221,18 +243,28 @@ impl<T> AtomicWeak<T> {
         guard: &'g Guard,
     ) -> Result<WeakSnapshot<'g, T>, CompareExchangeError<WeakSnapshot<'g, T>, WeakSnapshot<'g, T>>>
     {
-        let desired_raw = expected.ptr.with_tag(desired_tag);
-        #[cfg(feature = "circ_verif")]
-        crate::verif::yp2(crate::verif::site::AW_CAS_TAG, &self.link as *const _ as usize, expected.ptr.verif_word(), desired_raw.verif_word());
-        match self
-            .link
-            .compare_exchange(expected.ptr, desired_raw, success, failure)
-        {
-            Ok(current) => Ok(WeakSnapshot::from_raw(current, guard)),
-            Err(current) => Err(CompareExchangeError {
-                desired: WeakSnapshot::from_raw(desired_raw, guard),
-                current: WeakSnapshot::from_raw(current, guard),
-            }),
+        // See `compare_exchange` for why this is a loop.
+        let mut expected_raw = expected.ptr;
+        let desired_raw = expected_raw.with_tag(desired_tag);
+        loop {
+            #[cfg(feature = "circ_verif")]
+            crate::verif::yp2(crate::verif::site::AW_CAS_TAG, &self.link as *const _ as usize, expected_raw.verif_word(), desired_raw.verif_word());
+            match self
+                .link
+                .compare_exchange(expected_raw, desired_raw, success, failure)
+            {
+                Ok(current) => return Ok(WeakSnapshot::from_raw(current, guard)),
+                Err(current) => {
+                    if current.ptr_eq(expected_raw) {
+                        expected_raw = current;
+                    } else {
+                        return Err(CompareExchangeError {
+                            desired: WeakSnapshot::from_raw(desired_raw, guard),
+                            current: WeakSnapshot::from_raw(current, guard),
+                        });
+                    }
+                }
+            }
         }
     }
 
